@@ -37,7 +37,8 @@ TRANSPORT_EXC = ['ConnectionError', 'ReadTimeout', 'ConnectTimeout', 'SSLError',
                  'TooManyRedirects', 'InvalidURL']
 OPS = ['GetInstance', 'EnumerateInstances', 'EnumerateInstanceNames', 'CreateInstance', 'ModifyInstance',
        'DeleteInstance', 'Associators', 'ReferenceNames', 'ExecQuery', 'OpenEnumerateInstances',
-       'PullInstancesWithPath', 'OpenEnumerateInstancePaths', 'PullInstancePaths', 'CloseEnumeration', 'GetClass',
+       'PullInstancesWithPath', 'OpenEnumerateInstancePaths', 'PullInstancePaths', 'OpenQueryInstances',
+       'OpenQueryInstances', 'PullInstances', 'PullInstances', 'CloseEnumeration', 'GetClass',
        'EnumerateClasses', 'EnumerateClassNames', 'GetQualifier', 'EnumerateQualifiers', 'SetQualifier',
        'InvokeMethod', 'ExportIndication']
 
@@ -60,7 +61,7 @@ def gen_objs(seed):
     inst.path.namespace = rng.choice([None, 'root/cimv2', 'rôot/x'])
     return {'insts': insts, 'inst': inst, 'klass': g.klass(), 'klasses': [g.klass() for _ in range(rng.choice([0, 1, 2]))],
             'qd': g.qualdecl(), 'qds': [g.qualdecl() for _ in range(rng.choice([0, 1, 3]))],
-            'eos': rng.random() < 0.6, 'ctx': 'ctx-é' + str(rng.randint(0, 99)),
+            'rqrc': rng.random() < 0.4, 'eos': rng.random() < 0.6, 'ctx': 'ctx-é' + str(rng.randint(0, 99)),
             'rv': rng.randint(0, 5), 'outparams': [('Out' + str(k), g.string()) for k in range(rng.choice([0, 1, 2]))],
             'name': g.name('N'), 'str': g.string(), 'rng': rng}
 
@@ -111,7 +112,11 @@ def call_args(op, o, special):
                                              FilterQueryLanguage=rng.choice([None, 'DMTF:FQL']))
     if op == 'OpenEnumerateInstancePaths':
         return (o['klass'].classname,), dict(namespace=ns, OperationTimeout=rng.choice([None, 5]))
-    if op in ('PullInstancesWithPath', 'PullInstancePaths'):
+    if op == 'OpenQueryInstances':
+        return ('DMTF:CQL', 'select * from ' + o['str']), dict(
+            namespace=ns, ReturnQueryResultClass=True if o['rqrc'] else rng.choice([None, False]),
+            MaxObjectCount=rng.choice([None, 0, 10]))
+    if op in ('PullInstancesWithPath', 'PullInstancePaths', 'PullInstances'):
         return ((o['ctx'], 'root/cimv2'), rng.choice([0, 1, 100])), {}
     if op == 'CloseEnumeration':
         return ((o['ctx'], 'root/cimv2'),), {}
@@ -229,13 +234,13 @@ def gen_script(rng, op, objs, special):
 
 def gen_detail(rng, bodies):
     x = rng.random()
-    if x < 0.18:
+    if x < 0.16:
         return 'all'
-    if x < 0.30:
+    if x < 0.36:
         return 'paths'
-    if x < 0.42:
+    if x < 0.48:
         return 'summary'
-    if x < 0.47:
+    if x < 0.52:
         return None
     # integer levels: boundaries of the payloads and positions inside multi-byte characters
     cands = [0, 1, 2, 3, 10, 39, 40, 41, 100, 1000, 10 ** 6]
@@ -1069,7 +1074,7 @@ def run(run):
                 'yaml.dump representability; (c) cases = observer configuration (configure_logger api|http|all x '
                 'dest file|stderr|user-configured|None x detail all|paths|summary|None|int near payload boundaries and '
                 'inside multi-byte characters, before/after connection creation, repeated; TestClientRecorder on/off/'
-                'disabled, recorder order; stats; debug; creds tuple|list|none) x 1..3 calls of 22 operations with '
+                'disabled, recorder order; stats; debug; creds tuple|list|none) x 1..3 calls of 24 operations (incl. OpenQueryInstances/PullInstances whose instances have no path, optional QueryResultClass) with '
                 'generated arguments x scripted responses (success with non-ASCII content, CIM error, ill-formed UTF-8, '
                 'parse errors, HTTP errors, bad content type, transport exceptions, WBEMServerResponseTime good/bad). '
                 'non-trivial = an observer produced at least one record; distinct = distinct case JSON')
